@@ -40,7 +40,7 @@ type C18Case struct {
 	Values []string `json:"values,omitempty"`
 }
 
-var c18Kinds = []string{"codec", "encoding-id", "response", "response", "logout-response", "soap", "metadata", "authn-request", "logout-request", "handler-callback", "handler-sso-error", "handler-logout-error", "endpoint-encoding-id"}
+var c18Kinds = []string{"handler-metadata", "codec", "encoding-id", "response", "response", "logout-response", "soap", "metadata", "authn-request", "logout-request", "handler-callback", "handler-sso-error", "handler-logout-error", "endpoint-encoding-id"}
 
 // c18Magic: byte sequences that tools sniff for at the start (or strip from the end) of data - byte order marks, container
 // signatures, the first characters of an XML document, white space, padding. To the codec they are bytes like any others.
@@ -124,6 +124,10 @@ func genC18Case(t *rapid.T) C18Case {
 		c.Delivery = rapid.SampledFrom([]string{"sso-post", "sso-redirect", "slo-post", "slo-redirect"}).Draw(t, "endpoint")
 		c.Big = rapid.Bool().Draw(t, "deflated") // whether the payload sent is a DEFLATE stream
 	default:
+		if c.Kind == "handler-metadata" {
+			c.Delivery = rapid.SampledFrom([]string{"idp.example", "xn--bcher-kva.idp.example", "login--eu.idp.example", "a--b--c.example:8443", "UPPER.Example", "[2001:db8::1]:8443", "idp.example.", strings.Repeat("label.", 40) + "example"}).Draw(t, "mdhost")
+			c.Big = rapid.Bool().Draw(t, "signedmd")
+		}
 		if c.Kind == "handler-callback" {
 			c.Delivery = rapid.SampledFrom([]string{"", "post", "redirect", "redirect"}).Draw(t, "delivery")
 			c.Big = rapid.IntRange(0, 2).Draw(t, "big") == 0
@@ -401,6 +405,17 @@ func c18Handler(c C18Case) []*ev.Violation {
 			}
 			spec.Requests = []world.RequestSpec{{ID: "c18", AppID: "app-x", RelayState: tk.next(), ACS: acsURL, Binding: binding, AuthRequestID: tk.next(), UserID: "uid-x", Done: true}}
 			return spec, callbackReq(spec.IdP, "c18")
+		case "handler-metadata":
+			// the metadata document as the endpoint serves it: configured texts (organisation, contact, error URL) are data, and so
+			// is the host an entity ID is derived from (c.Delivery: names with "--", long names, upper case)
+			spec.IdP.IssuerMode, spec.IdP.IssuerPath = "host", "/saml"
+			spec.IdP.Organisation = &world.OrgSpec{Name: tk.next(), DisplayName: tk.next(), URL: tk.next()}
+			spec.IdP.Contact = &world.ContactSpec{ContactType: "technical", Company: tk.next(), GivenName: tk.next(), SurName: tk.next(), Email: tk.next(), Phone: tk.next()}
+			spec.IdP.ErrorURL = tk.next()
+			if c.Big {
+				spec.IdP.MetadataSigAlg = world.AlgRSASHA256
+			}
+			return spec, obs.HTTPReq{Method: "GET", Path: spec.IdP.Route("metadata"), Host: c.Delivery}
 		case "handler-sso-error":
 			a := spsim.NewAuthnReq("id"+stripIllegal(tk.next()), spec.SPs[0].EntityID)
 			a.Destination = "https://elsewhere.example/" + stripIllegal(tk.next())
@@ -479,8 +494,8 @@ func c18Handler(c C18Case) []*ev.Violation {
 			continue
 		}
 		want := c.Values[idx]
-		if c.Kind != "handler-callback" {
-			want = stripIllegal(want)
+		if c.Kind != "handler-callback" && c.Kind != "handler-metadata" {
+			want = stripIllegal(want) // these values travel inside a request document first
 		}
 		got := rl[i].Value
 		if !strings.Contains(stripIllegal(got), stripIllegal(want)) {
@@ -576,7 +591,7 @@ func c18Run(c C18Case) []*ev.Violation {
 		if !known && accepted {
 			return []*ev.Violation{ev.V("C18/unknown-encoding-passed-through", "%s request with SAMLEncoding=%q was accepted", c.Delivery, c.EncID)}
 		}
-	case "handler-callback", "handler-sso-error", "handler-logout-error":
+	case "handler-callback", "handler-sso-error", "handler-logout-error", "handler-metadata":
 		return c18Handler(c)
 	default:
 		return c18Struct(c)
